@@ -274,7 +274,37 @@ def check_mixlin(i, c, prev, cur):
         if abs(x - y) > 1e-9 * max(scale.get(e, 0.0), abs(y)) + 1e-25:
             raise Violation("mix_reads_current", "simulation %d: %s %d: element %s is %r, the current sources give %r" % (
                 i, G.MIX_KW[c["kind"]], c["a"], e, y, x))
+    # the same per named component (two components may hold the same elements)
+    cexp, cscale = {}, {}
+    for s, f, cid in c["parts"]:
+        for name, m in component_amounts(prev.parsed_all[resolve_prev(tuple(cid))]).items():
+            cexp[name] = cexp.get(name, 0.0) + f * m
+            cscale[name] = cscale.get(name, 0.0) + abs(f * m)
+    cgot = component_amounts(cur.parsed[(c["kind"], c["a"])])
+    for name in sorted(set(cexp) | set(cgot)):
+        x, y = cexp.get(name, 0.0), cgot.get(name, 0.0)
+        if abs(x - y) > 1e-9 * max(cscale.get(name, 0.0), abs(y)) + 1e-25:
+            raise Violation("mix_reads_current", "simulation %d: %s %d: component %s holds %r, the current sources give %r" % (
+                i, G.MIX_KW[c["kind"]], c["a"], "/".join(name), y, x))
     return True
+
+
+def component_amounts(ent):
+    """{(component path): moles} of the kinds whose components carry an amount of their own"""
+    out = {}
+    k = ent.get("_kind")
+    comps = ent.get("component") if isinstance(ent.get("component"), dict) else {}
+    if k in ("EQUILIBRIUM_PHASES", "GAS_PHASE"):
+        for name, sub in comps.items():
+            out[(name,)] = float(sub.get("moles") or 0.0)
+    elif k == "KINETICS":
+        for name, sub in comps.items():
+            out[(name,)] = float(sub.get("m") or 0.0)
+    elif k == "SOLID_SOLUTIONS":
+        for sname, ss in (ent.get("solid_solution") or {}).items():
+            for name, sub in ((ss.get("component") if isinstance(ss, dict) else None) or {}).items():
+                out[(sname, name)] = float(sub.get("moles") or 0.0)
+    return out
 
 
 def check_mixcons(i, c, prev, cur):
